@@ -126,6 +126,20 @@ class NameBag(SymColl):
             return _native(lambda e, x: me._add(x))
         if name == "copy":
             return _native(lambda e: me.snapshot())
+        if name == "discard" and self.kind == "set":
+            def discard(e: Any, x: Any) -> None:
+                if _is_str(x):
+                    me.t["cnt"] = sto(me.t["cnt"], x, 0)
+            return _native(discard)
+        if name == "remove" and self.kind == "list":
+            def remove(e: Any, x: Any) -> None:
+                from .pyvc import ObjV, RaiseSignal, builtin_class
+                if not _is_str(x):
+                    raise _outside(f"{me.name}.remove(non-string)")
+                if e.decide(Not(me.has(x))):
+                    raise RaiseSignal(ObjV(builtin_class("ValueError"), {}, (x,)))
+                me.t["cnt"] = sto(me.t["cnt"], x, smt.Sub(me.mult(x), 1))      # one occurrence less
+            return _native(remove)
         raise _outside(f"{type(self).__name__}.{name} (not modelled)")
 
     def _pyvc_iter(self, eng: Any) -> Sequence[Any]:
@@ -335,6 +349,18 @@ class IntKeyMap(SymColl):
 
     def _pyvc_iter(self, eng: Any) -> Sequence[Any]:
         return [self.generic(eng, INT, lambda k: self.has(k))]
+
+    items_value: Any = None      # callable(key) -> the generic value yielded by .items() / .values()
+
+    def _pyvc_getattr(self, eng: Any, name: str) -> Any:
+        me = self
+        if name in ("items", "values") and self.items_value is not None:
+            class _View:
+                def _pyvc_iter(self_v, e: Any) -> Sequence[Any]:      # noqa: N805
+                    k = me.generic(e, INT, lambda kk: me.has(kk))
+                    return [(k, me.items_value(k))] if name == "items" else [me.items_value(k)]
+            return _native(lambda e: _View())
+        raise _outside(f"{type(self).__name__}.{name} (not modelled)")
 
 
 class EdgeMap(SymColl):
